@@ -22,11 +22,12 @@ RULE = ("A history = a prefix of 1-6 other models followed by a target model, al
         "properties (float / jet interpreters, exact polynomial degree, reference linprog on drawn data, "
         "manufactured optimum), which do not depend on process state.  Non-trivial = the prefix contains a model "
         "that shares a declared name with the target (or a flood ran) before the target was observed."
-        '  Also: two families of models that differ only in parameter values (p*x, p*x+q*y, ... without literal constants) or only in declared bounds (bare `x >= 0`, x absent from the objective); floods also hammer one hot expression with cache hits before dropping all references.')
+        '  Also: two families of models that differ only in parameter values (p*x, p*x+q*y, ... without literal constants) or only in declared bounds (bare `x >= 0`, x absent from the objective); floods also hammer one hot expression with cache hits before dropping all references.'
+        '  Every target is additionally observed (values, derivative callables, classification, two solves, the start point / bounds / LP data handed to SciPy) here and in a pristine forked process; the two records must agree.  Quadratic-form family: x\'Qx with different dropped matrices (id reuse); big family: 64-130 variables x[i], differential only.')
 BUDGET = {"quick": {"workers": 16, "examples": 60}, "thorough": {"workers": 16, "examples": 800}}
 ASSUMPTIONS = ["the per-property checks pass for a model observed alone (that is what C01-C04, C08, C09, C17 establish)"]
 MANIFEST = {
- "technique": "property-based testing (Hypothesis): adversarial same-name model prefixes and cache floods in one process; target judged against process-independent absolute oracles",
+ "technique": "property-based testing (Hypothesis): adversarial same-name model prefixes, cache floods, id()-reuse and >= 64-variable families in one process; target judged against process-independent absolute oracles AND differentially against the same model observed in a pristine forked process",
 }
 
 PARTS = ["c01", "c02", "c03", "c04", "c17", "c08", "c09"]
